@@ -473,3 +473,19 @@ package internal
 //@ func internal.IsRequestBodyEmpty(r) (e) as bodyEmpty
 //@   trusted T-http
 //@   pure
+
+//@ -- C14: OPTIONS. The call fails exactly when the transport fails, the status is not 2xx (the error carries it) or the
+//@ -- answer does not announce DAV class 1; nothing is returned next to an error
+//@ func internal.parseCommaSeparatedSet(values, upper) (m)
+//@   allocates
+//@   ensures S1: m != nil && fresh(m)
+//@ func internal.(*Client).Options(c, ctx, path) (classes, methods, err)
+//@   requires R1: clientOK(c)
+//@   allocates
+//@   assigns ghost:data, ghost:doCalls, ghost:lastReq, ghost:nrCalls, ghost:nrMethod, ghost:nrURL, ghost:nrReq
+//@   ensures O1: doCalls == old(doCalls) || doCalls == old(doCalls) + 1
+//@   ensures O2: doCalls == old(doCalls) ==> err != nil
+//@   ensures O3: doCalls == old(doCalls) + 1 ==> (lastErr(c) != nil ==> err == lastErr(c)) && (lastErr(c) == nil && lastStatus(c) / 100 != 2 ==> err != nil && dynHTTP(err) && httpCode(err) == lastStatus(c))
+//@   ensures O4: doCalls == old(doCalls) + 1 ==> nrMethod == "OPTIONS" && lastReq != nil && lastReq.Method == "OPTIONS" && (!hasPrefix(resolved(c, path), "//") ==> urlParseOk(nrURL) && urlParsePath(nrURL) == resolved(c, path))
+//@   ensures O5: err == nil ==> doCalls == old(doCalls) + 1 && lastErr(c) == nil && lastStatus(c) / 100 == 2 && classes != nil && methods != nil && classes["1"]
+//@   ensures O6: err != nil ==> classes == nil && methods == nil
